@@ -18,6 +18,7 @@
 #include "sqfs/dir.h"
 #include "sqfs/dir_reader.h"
 #include "sqfs/data_reader.h"
+#include "verif_rt.h"
 #include "sqfs/xattr_reader.h"
 #include "sqfs/xattr_writer.h"
 #include "sqfs/xattr.h"
@@ -466,7 +467,8 @@ int main(int argc, char **argv)
 	};
 	kind_t k = { NULL, NULL, NULL };
 	void *o1, *o2, *o3, *c, *cc = NULL;
-	int order, i, pre, steps, copy_of_copy;
+	int order, i, pre, steps, copy_of_copy, fail_copies;
+	unsigned long failed_copies = 0;
 	unsigned long ops = 0, mism = 0;
 
 	if (argc < 6) { fprintf(stderr, "usage\n"); return 2; }
@@ -474,7 +476,8 @@ int main(int argc, char **argv)
 	order = atoi(argv[3]);
 	image = argv[4];
 	scratch = argv[5];
-	copy_of_copy = argc > 6;
+	copy_of_copy = argc > 6 && !strcmp(argv[6], "cc");
+	fail_copies = argc > 6 && !strcmp(argv[6], "failcopy");
 	if (open_image() != 0) { printf("HARNESS-ERROR cannot open image\n"); return 2; }
 	comp_variant = (strtoull(argv[2], NULL, 0) % 4 == 0) ? 0 : (rng >> 7) | 1;
 
@@ -500,6 +503,27 @@ int main(int argc, char **argv)
 		uint64_t code = rnd(), a = k.op(o1, code), b = k.op(o2, code), d = k.op(o3, code);
 		if (a != b || a != d) { printf("HARNESS-ERROR twins disagree before the copy (op %d)\n", i); return 2; }
 		ops += 3;
+	}
+	if (fail_copies) {
+		/* every allocation made by sqfs_copy fails once: the failed copy must leave the original as it was */
+		unsigned long kth;
+		for (kth = 1; kth < 300; ++kth) {
+			int fired;
+			verif_arm_alloc_fault(kth);
+			c = sqfs_copy(o1);
+			fired = verif_disarm_fault();
+			if (!fired)
+				break;
+			if (c != NULL) { sqfs_drop(c); c = NULL; }
+			else failed_copies++;
+			for (i = 0; i < 3; ++i) {
+				uint64_t os = rnd();
+				ops += 2;
+				k.op(o2, os);	/* keep all three twins in step */
+				if (k.op(o1, os) != k.op(o3, os)) { printf("VIOL original-affected-by-failed-copy kind=%s alloc=%lu\n", k.name, kth); nviol++; goto out; }
+			}
+		}
+		if (c != NULL) { sqfs_drop(c); c = NULL; }
 	}
 	c = sqfs_copy(o1);
 	if (c == NULL) { printf("VIOL copy-failed kind=%s\n", k.name); nviol++; goto out; }
@@ -540,6 +564,6 @@ int main(int argc, char **argv)
 out:
 	sqfs_drop(o1); sqfs_drop(c); sqfs_drop(o2); sqfs_drop(o3);
 	sqfs_drop(helper_dr); sqfs_drop(uncmp); sqfs_drop(imgfile);
-	printf("RESULT kind=%s ops=%lu viol=%lu\n", k.name, ops, nviol);
+	printf("RESULT kind=%s ops=%lu viol=%lu failed_copies=%lu\n", k.name, ops, nviol, failed_copies);
 	return nviol ? 1 : 0;
 }
